@@ -529,7 +529,9 @@ pub fn explore_integrity(ctx: &Ctx) -> Result<(u64, u64, Vec<J>), String> {
     let tot = new_totals();
     let machinery: Mutex<Vec<String>> = Mutex::new(vec![]);
     let mut fam_json = vec![];
-    explore_families(ctx, families(Tier::Quick), &sig, &tot, &machinery, &mut fam_json);
+    // the three-thread family adds no new final states over the two-thread ones for an invariant on the dump
+    let fams: Vec<Family> = families(Tier::Quick).into_iter().filter(|f| !f.name.starts_with("3x1")).collect();
+    explore_families(ctx, fams, &sig, &tot, &machinery, &mut fam_json);
     let mach = machinery.lock().unwrap();
     if !mach.is_empty() {
         return Err(format!("schedule replay diverged (nondeterminism not owned by the scheduler): {}", mach[0]));
